@@ -9,7 +9,9 @@ TRUSTED = [
     "PGP symmetric decryption (x/crypto/openpgp) and PEM/PKCS parsing in front of the model: the configuration record says which passphrase decrypts and whether the plaintext parses",
     "artefact detection in responses by pattern (PEM CERTIFICATE blocks, *-cert-v01@openssh.com lines, compact JWS with a JSON header carrying alg) over body and all headers",
     "tools/extract: route table of main(); the admin mux (/readyz, /admin/inject) is driven through the handler functions directly, and once behind real TLS / plain HTTP listeners configured like main()'s admin server",
-    "the auto-unseal path (tryAwsUnseal -> unsealCA) is covered by theorems over unseal_ca only: the cloud secret manager is not reachable offline",
+    "the auto-unseal path is driven through loadVerifyConfigFile -> autoUnsealAwsLoop -> aws-sdk-go against a fake cloud inside the test process (instance-metadata service via AWS_EC2_METADATA_SERVICE_ENDPOINT; a TLS listener speaking secretsmanager.GetSecretValue under a throw-away CA, reached through the dialer and root pool of the test binary's http.DefaultTransport); only the loop's first attempt is observed",
+    "regenerated table pubkey_writes (tools/extract/c09_pubkeys.go): shape of every assignment to KeymasterPublicKeys, syntactic (append(list, e.Public()) under the lexically held mutex)",
+    "stage (e): time knobs are found by reflection over AppConfigFile (time.Duration fields, integer fields named after seconds / intervals); a periodic activity configured in any other way is not reached",
 ]
 
 def corr(ctx, res, name, label, idxfile, prefix):
@@ -29,15 +31,19 @@ def corr(ctx, res, name, label, idxfile, prefix):
 def run(ctx):
     ctx.audit("Props.C09", ["c09_sealed_inert", "c09_only_right_pass", "c09_wrong_pass_unchanged", "c09_no_chain_unchanged",
                             "c09_refused_unchanged", "c09_refused_still_sealed", "c09_accepted_iff", "c09_auto_unseal_refused_unchanged", "c09_auto_unseal_only_right_pass", "c09_old_refused_changes_state_refuted",
-                            "c09_once_sequential", "c09_once", "c09_no_half_init", "c09_unseal_is_its_body", "c09_published"])
+                            "c09_once_sequential", "c09_once", "c09_no_half_init", "c09_unseal_is_its_body", "c09_published",
+                            "c09_published_stable", "c09_writers_keep", "c09_stale_replace_refuted"])
     gen = ctx.extract()
-    files = ["kmd/common.go", "kmd/creds.go", "kmd/c09.go", os.path.join(ctx.work, "gen", "mux_gen.go")]
+    files = ["kmd/common.go", "kmd/creds.go", "kmd/c09.go", "kmd/c09pub.go", "kmd/c09aws.go", os.path.join(ctx.work, "gen", "mux_gen.go")]
     ok, result, log = ctx.go_harness("cmd/keymasterd", "TestVerif_C09", files, timeout=1500)
     ok2, result2, log2 = ctx.go_harness("cmd/keymasterd", "TestVerif_C09Race", files, race=True, timeout=1800)
     nrace = racelog.absorb(ctx, log2, "C09")
     ctx.obligations.append(("race-detector: %s rounds of 8 injections racing 32 requests" % ((result2 or {}).get("extra", {}).get("rounds", "?")),
                             result2 is not None and nrace == 0, "%d race reports" % nrace))
-    if compile_gen(ctx, ("Routes.v",)):
+    if compile_gen(ctx, ("Routes.v", "Tables.v")):
+        # every write of the published-key list after start-up is an append of a signer's key under the mutex
+        # (the hypothesis of c09_published_stable on the writers), over the regenerated table pubkey_writes
+        ctx.gen_obligations("Obl_C09.v", ["c09_pubkeys_only_appended", "c09_pubkeys_table_covers"])
         # the sweep of the harness covers the regenerated route table
         routes_v = open(os.path.join(ctx.work, "gen", "Routes.v")).read()
         nroutes = len(re.findall(r"^\s+\(\"", routes_v, re.M))
@@ -52,6 +58,31 @@ def run(ctx):
             idx = os.path.join(ctx.work, "CasesC09.idx")
             n = res.get("c09_ncases", "?")
             corr(ctx, res, "c09_seq_mismatches", "injection sequences: status, readyz, signer/Ed25519/CA/public-key/ready-message counts after every step = Model.Seal.inject_run (%s cases in file)" % n, idx, "seq")
+            corr(ctx, res, "c09_pub_mismatches", "published keys polled over time after the injection, every time knob of the configuration tiny, many foreign keys listed = the state the injection left (Model.Seal.poll_ok)", idx, "pub")
+            # round 2: a round in which a poll saw a signing key unpublished is a failing input
+            viol = res.get("c09_pub_violating") or "[]"
+            for i in [int(x) for x in re.findall(r"\d+", viol)][:1]:
+                line = None
+                if os.path.exists(idx):
+                    for ln in open(idx):
+                        if ln.startswith("pub %d\t" % i):
+                            line = ln.strip()
+                ctx.hits.append({"key": "C09:model-oracle:signing-key-unpublished-after-unseal",
+                                 "oracle": "c09_published_stable evaluated (inside Coq) on the observed polls: after the injection answered 200, a poll at which a key that signs is not published or the own cookie is rejected",
+                                 "what": "a poll after unsealing saw a signing key missing from the published sets (or the server's own fresh cookie rejected)",
+                                 "case": {"round": line}, "observed": {"violating_rounds": viol}})
+            corr(ctx, res, "c09_auto_mismatches", "auto-unseal through loadVerifyConfigFile -> autoUnsealAwsLoop -> aws-sdk-go -> fake instance metadata + fake Secrets Manager: state after the loop's first attempt = Model.Seal.unseal_ca on the stored secret", idx, "auto")
+            viol = res.get("c09_auto_violating") or "[]"
+            for i in [int(x) for x in re.findall(r"\d+", viol)][:1]:
+                line = None
+                if os.path.exists(idx):
+                    for ln in open(idx):
+                        if ln.startswith("auto %d\t" % i):
+                            line = ln.strip()
+                ctx.hits.append({"key": "C09:model-oracle:auto-unseal",
+                                 "oracle": "c09_auto_unseal_only_right_pass / c09_auto_unseal_refused_unchanged evaluated (inside Coq) on the observed state after the auto-unseal attempt",
+                                 "what": "the auto-unseal path unsealed with a secret that does not decrypt and load every key file, or a failed attempt changed the state",
+                                 "case": {"case": line}, "observed": {"violating_cases": viol}})
             corr(ctx, res, "c09_route_mismatches", "every probed request on sealed / half-loaded / unsealed states: emitted artefacts and error class = Model.Seal.run_handler on the signing primitives the request reaches", idx, "route")
     ctx.assumptions = ["the service listener is started by main() only after SignerIsReady; the handler-level guarantee is what is checked here"]
     return ctx.finish("bin/build-coq; coqc Audit_Props_C09 / CasesC09 (lib/core.py); go test -overlay TestVerif_C09; go test -race -overlay TestVerif_C09Race",
